@@ -233,3 +233,25 @@ package transport
 //@        d := decodeGrpcMessage(e)
 //@   ensures e == m
 //@   ensures d == m
+// ---- C10: the status on the wire --------------------------------------------------------------
+//
+// Server: the trailers carry grpc-status = decimal code of the handler's status
+// and grpc-message = percent-encoding (C08) of its message. Client: the status
+// handed to the stream is built from the grpc-status code, the decoded
+// grpc-message and the grpc-status-details-bin values of the same header block.
+
+//@ import istatus "google.golang.org/grpc/internal/status"
+
+//@ func (*http2Server).writeStatus
+//@   prop C10
+//@   assert at call Itoa#1 arg0 == int(st.Code())
+//@   assert at call encodeGrpcMessage#1 arg0 == st.Message()
+//@   assert at call RawStatusProto#1 arg0 == st
+//@   assert at call Marshal#1 ncalls("RawStatusProto") == 1
+//@   assert at call finishStream#1 arg1 == s && arg4 == trailingHeader && arg5 == true
+
+//@ func (*http2Client).operateHeaders
+//@   prop C10
+//@   assert at call ParseInt#1 arg0 == hf.Value && arg1 == 10 && arg2 == 32
+//@   assert at call decodeGrpcMessage#1 arg0 == hf.Value && hf.Name == "grpc-message"
+//@   assert at call NewWithProto#1 arg0 == grpcStatusCode && arg1 == grpcMessage && isGRPC && headerError == "" && endStream
